@@ -177,7 +177,7 @@ func init() {
 					}
 				}
 				r.Check(guarded, k+"/not-visited", as.Pos(), "push is dominated by the not-visited edge of visited.At(head)")
-				r.Check(mark != nil && mark.Pos() < as.Pos(), k+"/after-mark", as.Pos(), "push happens after the node was marked visited")
+				r.Check(mark != nil && startOf(mark) < startOf(as), k+"/after-mark", as.Pos(), "push happens after the node was marked visited")
 				return true
 			})
 			r.Floor("pushes inside the search loop", n, 1)
@@ -923,7 +923,7 @@ func init() {
 					continue
 				}
 				n++
-				r.Check(top.Pos() < bindLoop.Pos(), "insert-before-bindings/"+fi.loopCtx(st)+"/"+exprShort(recvOf(st)), st.Pos(), "non-binding insertion precedes binding resolution")
+				r.Check(startOf(top) < startOf(bindLoop), "insert-before-bindings/"+fi.loopCtx(st)+"/"+exprShort(recvOf(st)), st.Pos(), "non-binding insertion precedes binding resolution")
 			}
 			r.Floor("non-binding insertions", n, 10)
 			// error gate between: collected errors abort before bindings are resolved is not required for correctness
